@@ -18,6 +18,7 @@ type Spec struct {
 // Registry maps property ids to checks.
 var Registry = map[string]Spec{
 	"C19": {Want: build.Want{WorkerInst: true}, Run: RunC19},
+	"C02": {Want: build.Want{WorkerInst: true}, Run: RunC02},
 	"C09": {Want: build.Want{WorkerInst: true, WorkerRace: true}, Run: RunC09},
 }
 
